@@ -227,7 +227,8 @@ fn serve(mut s: TcpStream, st: Arc<BackendState>) {
             // body may still be in flight the connection is closed
             if st.big.lock().unwrap().contains(key) {
                 // as below: a request without body leaves the connection reusable, the others announce the close
-                let close = if head.starts_with("GET ") { "" } else { "Connection: close\r\n" };
+                // (VH_C15_SILENT_CLOSE: diagnostic switch, the backend hangs up without announcing it)
+                let close = if head.starts_with("GET ") || std::env::var("VH_C15_SILENT_CLOSE").is_ok() { "" } else { "Connection: close\r\n" };
                 let mut r = format!("HTTP/1.1 200 OK\r\nContent-Length: {BIG_BODY}\r\n{close}\r\n").into_bytes();
                 r.extend(std::iter::repeat_n(b'x', BIG_BODY));
                 if s.write_all(&r).is_err() { return; }
